@@ -19,6 +19,13 @@ import props.c13_common as cc
 ID = "C13"
 
 
+def regen(ctx):
+    """coq/C13/Model.v takes the bound expressions of _cffi_to_c_SIGNED_FN/_UNSIGNED_FN from coq/C03/Gen.v (A1's
+    regenerated model): re-run that regenerator so that the C13 theorems are checked against today's source text"""
+    from props import c03_regen
+    c03_regen.regen(ctx, vlib)
+
+
 class Unmodelled(Exception):
     pass
 
@@ -817,11 +824,14 @@ def run(ctx):
 MANIFEST = dict(
     technique="Coq proof (conversion equivalence API vs libffi for all values; exchange-buffer layout safety by induction over "
               "the argument list) + four-path differential execution of compiled random signatures",
-    text="Proof: for every argument type and every Python value of the modelled universe the generated-wrapper conversion "
-         "and convert_from_object give the same C value or the same exception class, and never let a call proceed with an "
-         "exception pending; result conversions agree; for ALL signatures the slots fb_build assigns (array of argument "
-         "pointers, result, arguments) are pairwise disjoint, aligned and inside exchange_size. Partial: libffi, the ABI "
-         "and the compiler are covered by sampling (four-path execution of random compiled signatures on every run).",
+    text="Proof: two hand models (generated-wrapper conversions; convert_from_object/cdata_call), each tied to its own code "
+         "path by differential execution on every run, give for every argument type and every Python value of the modelled "
+         "universe the same C value or the same exception class and never let a call proceed with an exception pending "
+         "(the API bounds are the regenerated source expressions of C03/Gen.v); primitive result conversions agree; variadic "
+         "arguments: non-cdata rejected, cdata promoted as C's default argument promotions except float (refuted, replayed); "
+         "for ALL signatures the slots fb_build assigns are pairwise disjoint, aligned and inside exchange_size. Partial: "
+         "errno, pointed-to memory, struct/pointer results, the equality of the three libffi paths, libffi and the ABI are "
+         "decided by the four-path execution of random compiled signatures only.",
     note="Trusted: Coq kernel; hand model C13/Model.v (tied by differential testing); gcc; libffi; CPython number protocol "
          "as modelled (PyLong_AsLongLong, PyFloat_AsDouble). Theorems closed under the global context.",
     design_ref="DESIGN.md §4 C13")
